@@ -205,6 +205,21 @@ pub enum Event {
     CrashPanic { cut: usize, msg: String },
     #[serde(rename = "cancel")]
     Cancel { n: usize, polls: usize },
+    /// marker: the driver starts action number `i` of the case
+    #[serde(rename = "act")]
+    Act { i: usize },
+    /// what the engine has recorded about node `n` (qbice::verif dump hook)
+    #[serde(rename = "dump")]
+    Dump {
+        n: usize,
+        lv: i64,
+        cur: i64,
+        fwd: Vec<usize>,
+        tfc: Vec<usize>,
+        dirty: Vec<usize>,
+        back: Vec<usize>,
+        pbp: i64,
+    },
     /// the executor of node `n` is armed to panic when it next runs
     #[serde(rename = "arm")]
     Arm { n: usize },
